@@ -343,3 +343,80 @@ func runC08Cov(c *ctx) []procOut {
 	sort.Slice(outs, func(i, j int) bool { return outs[i].cfg < outs[j].cfg })
 	return outs
 }
+
+// reachMeter (C06): builds the workload driver with coverage instrumentation of the library packages, runs it
+// once per build and lists the exported functions and methods that the workload never executed, so that an API
+// that is not monitored shows up in the evidence instead of being silently skipped.
+func reachMeter(c *ctx) map[string]any {
+	const lib = "github.com/oasisprotocol/curve25519-voi/"
+	coverpkg := lib + "curve/...," + lib + "internal/...," + lib + "primitives/...," + lib + "zzverif/drv/c06"
+	out := map[string]any{}
+	var mu sync.Mutex
+	var wg sync.WaitGroup
+	for _, bn := range []string{"default", "purego", "force32bit"} {
+		wg.Add(1)
+		go func(bn string) {
+			defer wg.Done()
+			b := builds[bn]
+			tags := append([]string{}, b.Tags...)
+			if c.useGraft {
+				tags = append(tags, "verif")
+			}
+			bin := c.binPath("reach." + bn)
+			args := []string{"build", "-trimpath", "-cover", "-coverpkg=" + coverpkg}
+			if len(tags) > 0 {
+				args = append(args, "-tags", strings.Join(tags, ","))
+			}
+			args = append(args, "-o", bin, "./drv/c06")
+			if o, err := run(filepath.Join(c.scratch, "h"), goEnv(), "go", args...); err != nil {
+				mu.Lock()
+				out[bn] = "cover build failed: " + firstLines(o, 5)
+				mu.Unlock()
+				return
+			}
+			covdir := filepath.Join(c.scratch, "out", "reach-"+bn)
+			os.MkdirAll(covdir, 0o755)
+			cmd := exec.Command(bin, "-config", bn, "-tier", "quick", "-seed", strconv.FormatInt(c.seed, 10), "-out", filepath.Join(covdir, "result.json"))
+			cmd.Env = append(goEnv(), "GOCOVERDIR="+covdir)
+			cmd.Dir = covdir
+			cmd.CombinedOutput()
+			fo, _ := run(covdir, goEnv(), "go", "tool", "covdata", "func", "-i="+covdir)
+			var missed []string
+			total, exported := 0, 0
+			for _, l := range strings.Split(fo, "\n") {
+				f := strings.Fields(l)
+				if len(f) != 3 || !strings.HasSuffix(f[2], "%") {
+					continue
+				}
+				total++
+				name := f[1]
+				loc := strings.TrimPrefix(f[0], lib)
+				if strings.Contains(loc, "/zzverif") || strings.Contains(loc, "zz_verif") || strings.Contains(loc, "internal/asm/") || strings.Contains(loc, "internal/testhelpers") {
+					continue
+				}
+				// exported function, or exported method of an exported type
+				base := name
+				recvOK := true
+				if i := strings.LastIndex(name, "."); i >= 0 {
+					base = name[i+1:]
+					recv := strings.TrimLeft(name[:i], "(*")
+					recvOK = recv != "" && recv[0] >= 'A' && recv[0] <= 'Z'
+				}
+				if base == "" || base[0] < 'A' || base[0] > 'Z' || !recvOK {
+					continue
+				}
+				exported++
+				if f[2] == "0.0%" {
+					missed = append(missed, loc[:strings.Index(loc, ":")]+" "+name)
+				}
+			}
+			sort.Strings(missed)
+			mu.Lock()
+			out[bn] = map[string]any{"functions_in_profile": total, "exported_functions": exported, "exported_not_executed": missed}
+			mu.Unlock()
+			os.RemoveAll(covdir)
+		}(bn)
+	}
+	wg.Wait()
+	return out
+}
